@@ -15,6 +15,17 @@ CLAIMED = {
             "DESIGN.md 4/C17"),
 }
 
+CLAIMED["C05"] = ("model_checking",
+    "TLA+ spec ConnMgr (property monitor) + ConnMgrMC (implementation-shaped manager model) checked by TLC; one behaviour per transition of the bounded model and seeded random histories replayed into the real TransportManager through a scripted transport; recorded steps validated by TLC against the monitor (and against the model for drift)",
+    "TLC explores every interleaving of dial requests, transport outcomes, inbound connections, accept results and closures for 2 peers / 3-4 connection ids / several limit configurations on a model transcribed handler by handler from the manager; each transition of the bounded graph (plus wedge probes at quiescence) and long random histories over 3 peers are executed on the real TransportManager and every step is validated by TLC against the property-level ledger: one outcome per attempt, failures name dialed addresses, no silence at quiescence, no wedge, no panic.",
+    "legal scripted transport (TCP-like at the trait boundary); one stimulus at a time; small-scope constants; address-shape quantifier covered by the shape driver (see evidence)",
+    "DESIGN.md 4/C05")
+CLAIMED["C06"] = ("model_checking",
+    "same ConnMgr TLA+ specs and conformance pipeline as C05; the monitor's cap rules decide",
+    "the property monitor counts connections from the manager's accept() call until closure and checks after every recorded step of the real TransportManager: at most 2 per peer, incoming/outgoing never above the configured maxima, pending inbound sockets refused only at the limit, and a connection from an unconnected peer is accepted whenever the node is below its limits (capacity released exactly on close / accept failure); TLC checks the same rules plus exactness of the limit sets on the bounded model.",
+    "legal scripted transport; limits in {none,0,1,2} combinations; 2 peers in TLC, 3 in random runs",
+    "DESIGN.md 4/C06")
+
 NOT_YET = "check not built yet (work in progress, see DESIGN.md build order)"
 NA = {}
 
